@@ -1015,6 +1015,9 @@ class tensor:
 
         # Extract locations of nonzeros in W
         wsubs, _ = W.find()
+        if wsubs.size == 0:
+            # a sparse mask without stored entries has subs of shape (1, 0)
+            wsubs = np.zeros((0, self.ndims), dtype=int)
 
         # Extract those non-zero values
         return self.data[tuple(wsubs.transpose())]
